@@ -104,6 +104,8 @@ def main():
         try:
             import prelude_check
             prelude_check.run_prelude(ctx)
+            import prelude_check_e
+            prelude_check_e.run_prelude_e(ctx)
             ctx.flush()
         except ImportError:
             ctx.notes.append('prelude_check not available')
